@@ -111,15 +111,24 @@ def parse_toks(s):
 # ----------------------------------------------------------------------------- one invocation
 
 class Case:
-    """mode C/D/T, srcs [names], out '-'|'c'|'o:name', force, rm, quiet, answer ('y'/'n'/None),
-    files {name: bytes | DIR}, extra [args]"""
+    """mode C/D/T, srcs [names] ('-' = stdin), out '-'|'c'|'o:name'|'O:dir', force, rm (or rmk = the --rm / -k flags in order),
+    quiet, answer ('y'/'n'/None), files {name: bytes | DIR} (names may contain '/'), links {name: target},
+    stdin bytes, rec (-r), excl (--exclude-compressed), dict / patch (file names), extra [args]"""
 
     def __init__(self, name, mode, srcs, out="-", force=False, rm=False, quiet=True, answer=None,
-                 files=None, extra=()):
+                 files=None, extra=(), links=None, stdin=None, rec=False, excl=False, dictf=None, patch=None, rmk=None):
         self.name, self.mode, self.srcs, self.out = name, mode, list(srcs), out
-        self.force, self.rm, self.quiet, self.answer = force, rm, quiet, answer
+        self.force, self.quiet, self.answer = force, quiet, answer
+        self.rmk = list(rmk) if rmk is not None else (["r"] if rm else [])
         self.files = dict(files or {})
+        self.links = dict(links or {})
+        self.stdin = stdin
+        self.rec, self.excl, self.dict, self.patch = rec, excl, dictf, patch
         self.extra = list(extra)
+
+    @property
+    def rm(self):
+        return bool(self.rmk) and self.rmk[-1] == "r"
 
     @property
     def confirm(self):
@@ -135,33 +144,54 @@ class Case:
             a.append("-q")
         if self.force:
             a.append("-f")
-        if self.rm:
-            a.append("--rm")
+        for f in self.rmk:
+            a.append("--rm" if f == "r" else "-k")
         if self.out == "c":
             a.append("-c")
+        if self.rec:
+            a.append("-r")
+        if self.excl:
+            a.append("--exclude-compressed")
+        if self.dict is not None:
+            a += ["-D", self.dict]
+        if self.patch is not None:
+            a.append("--patch-from=" + self.patch)
         a += self.extra
+        if self.out.startswith("O:"):
+            a += ["--output-dir-flat", self.out[2:]]
         a += self.srcs
         if self.out.startswith("o:"):
             a += ["-o", self.out[2:]]
         return a
 
     def to_json(self):
-        return dict(name=self.name, mode=self.mode, srcs=self.srcs, out=self.out, force=self.force, rm=self.rm,
-                    quiet=self.quiet, answer=self.answer, extra=self.extra,
+        return dict(name=self.name, mode=self.mode, srcs=self.srcs, out=self.out, force=self.force, rmk=self.rmk,
+                    quiet=self.quiet, answer=self.answer, extra=self.extra, links=self.links,
+                    stdin=None if self.stdin is None else self.stdin.hex(), rec=self.rec, excl=self.excl,
+                    dict=self.dict, patch=self.patch,
                     files={k: (DIR if v == DIR else v.hex()) for k, v in self.files.items()})
 
     @staticmethod
     def from_json(j):
-        return Case(j["name"], j["mode"], j["srcs"], j["out"], j["force"], j["rm"], j["quiet"], j["answer"],
-                    {k: (DIR if v == DIR else bytes.fromhex(v)) for k, v in j["files"].items()}, j["extra"])
+        return Case(j["name"], j["mode"], j["srcs"], j["out"], j["force"], False, j["quiet"], j["answer"],
+                    {k: (DIR if v == DIR else bytes.fromhex(v)) for k, v in j["files"].items()}, j["extra"],
+                    links=j.get("links"), stdin=None if j.get("stdin") is None else bytes.fromhex(j["stdin"]),
+                    rec=j.get("rec", False), excl=j.get("excl", False), dictf=j.get("dict"), patch=j.get("patch"),
+                    rmk=j.get("rmk", ["r"] if j.get("rm") else []))
+
+    def kind_of(self, s):
+        if s == "-":
+            return "stdin"
+        if s in self.links:
+            return "link"
+        v = self.files.get(s)
+        return "missing" if v is None else ("dir" if v == DIR else "file")
 
     def shape(self):
         """canonical shape of the invocation (for distinct_nontrivial)"""
-        kinds = []
-        for s in self.srcs:
-            v = self.files.get(s)
-            kinds.append("missing" if v is None else ("dir" if v == DIR else "file"))
-        return (self.mode, self.out.split(":")[0], self.force, self.rm, self.confirm, len(self.srcs), tuple(kinds))
+        kinds = tuple(self.kind_of(s) for s in self.srcs)
+        return (self.mode, self.out.split(":")[0], self.force, "".join(self.rmk), self.confirm, len(self.srcs), kinds,
+                self.rec, self.excl, self.dict is not None, self.patch is not None)
 
 
 class Runner:
@@ -176,14 +206,19 @@ class Runner:
         base = os.path.join(self.ctx.scratch, "r%05d" % self.n_dirs)
         w = os.path.join(base, "w")
         os.makedirs(w)
-        for n, v in case.files.items():
+        for n, v in sorted(case.files.items()):
             p = os.path.join(w, n)
             if v == DIR:
-                os.makedirs(p)
+                os.makedirs(p, exist_ok=True)
             else:
+                os.makedirs(os.path.dirname(p), exist_ok=True)
                 with open(p, "wb") as f:
                     f.write(v)
                 os.utime(p, (1500000000, 1500000000))
+        for n, t in sorted(case.links.items()):
+            p = os.path.join(w, n)
+            os.makedirs(os.path.dirname(p), exist_ok=True)
+            os.symlink(os.path.relpath(os.path.join(w, t), os.path.dirname(p)), p)
         return base, w
 
     def execute(self, case, k=0, action="none", wide=False):
@@ -193,7 +228,10 @@ class Runner:
         so = os.path.join(base, "stdout")
         si = os.path.join(base, "stdin")
         with open(si, "wb") as f:
-            f.write(((case.answer or "n") + "\n").encode() * 16 if not case.quiet else b"")
+            if case.stdin is not None:
+                f.write(case.stdin)
+            else:
+                f.write(((case.answer or "n") + "\n").encode() * 16 if not case.quiet else b"")
         env = dict(self.env)
         if wide:
             env["C19_WIDE"] = "1"
@@ -275,10 +313,15 @@ def parse_klog(path):
     return entries, status
 
 
-def canon_real(entries, relevant):
-    """system calls of the real run -> canonical events on the relevant paths"""
+def canon_real(entries, relevant, links=None, stdin_src=False):
+    """system calls of the real run -> canonical events on the relevant paths.
+    links: the symbolic links of the case {name: target}: an open(O_CREAT) through a link that still exists is an
+    event on the target key (the model's operations name the key they act on)"""
     ev = []
     fd = {}
+    live = dict(links or {})
+    if stdin_src:
+        fd[0] = ("-", "r")
     for e in entries:
         if "act" in e:
             continue
@@ -289,14 +332,18 @@ def canon_real(entries, relevant):
         if name in ("openat", "open", "creat"):
             flags = e["a"][2] if name == "openat" else (e["a"][1] if name == "open" else O_CREAT | O_TRUNC | O_WRONLY)
             mode = e["a"][3] if name == "openat" else (e["a"][2] if name == "open" else e["a"][1])
+            if flags & 0o200000:
+                continue                           # opendir (-r): reading a directory is not part of the protocol
             if p in relevant and e["ret"] is not None and e["ret"] >= 0:
                 if flags & O_CREAT or flags & O_TRUNC or flags & (O_WRONLY | O_RDWR):
                     kind = "c"
-                    ev.append("c:%s:%o%s" % (p, mode & 0o7777, "" if (flags & O_CREAT and flags & O_TRUNC) else ":flags=%o" % flags))
+                    key = live.get(p, p)
+                    ev.append("c:%s:%o%s" % (key, mode & 0o7777, "" if (flags & O_CREAT and flags & O_TRUNC) else ":flags=%o" % flags))
+                    fd[e["ret"]] = (key, kind)
                 else:
                     kind = "r"
                     ev.append("r:" + p)
-                fd[e["ret"]] = (p, kind)
+                    fd[e["ret"]] = (p, kind)
         elif name == "close":
             x = fd.pop(e["a"][0], None)
             if x:
@@ -316,7 +363,8 @@ def canon_real(entries, relevant):
         elif name in ("unlink", "unlinkat"):
             if p in relevant and e["ret"] == 0:
                 ev.append("u:" + p)
-        elif name in ("rename", "renameat", "renameat2", "truncate"):
+                live.pop(p, None)
+        elif name in ("rename", "renameat", "renameat2", "truncate", "mkdir", "mkdirat", "rmdir"):
             if p in relevant:
                 ev.append(name + ":" + p)
         elif name == "exit_group":
@@ -355,6 +403,61 @@ class Prepared:
     pass
 
 
+FAULT_FIELDS = ("open", "ovw_unlink", "creat", "close", "art_unlink", "close_src", "rm")
+
+
+def fault_str(f):
+    """f: dict with the failing call sites of one file -> the model's fault field"""
+    f = f or {}
+    return "".join("0" if f.get(k) else "1" for k in FAULT_FIELDS) + ("-" if f.get("wfail") is None else str(f["wfail"]))
+
+
+def listing(rn, case):
+    """readdir order of the directories of the case, as the tool will see it (a fresh copy of the case's tree)"""
+    if not case.rec:
+        return {}
+    base, w = rn.fresh(case)
+    ls = {}
+    for root, dirs, files in os.walk(w, followlinks=True):
+        rel = os.path.relpath(root, w)
+        if rel == ".":
+            continue
+        ls[rel] = [os.path.join(rel, n) for n in os.listdir(root)]
+    shutil.rmtree(base, ignore_errors=True)
+    return ls
+
+
+def model_line(case, fsl, ls, verd, faults):
+    vl = []
+    for n, (co, cc, items) in verd.items():
+        vl.append("%s=%s:%s:%s:%s" % (n, fault_str(faults.get(n)), co, cc, items))
+    for n, f in faults.items():
+        if n not in verd:
+            vl.append("%s=%s:0::" % (n, fault_str(f)))
+    return "FIO;%s;%s;%s;%d%d%d%d;%s;%s;%s;%s;%s;%s;" % (
+        case.mode, ",".join(case.srcs), case.out, case.force, case.confirm, case.rec, case.excl, "".join(case.rmk),
+        case.dict or "", case.patch or "", ",".join(fsl),
+        ",".join("%s>%s" % (d, "|".join(c)) for d, c in ls.items()), ",".join(vl))
+
+
+def ask_model(rn, pr, faults):
+    """the model's answer for the prepared case under the given faults -> (ops, st, si, exit)"""
+    out = rn.m.ask(model_line(pr.case, pr.fsl, pr.ls, pr.verd, faults) + ",".join(pr.probes))
+    ops, st, si = [], [], []
+    for l in out:
+        if l.startswith("OPS"):
+            ops = l.split()[1:]
+        elif l.startswith("ST ") or l.startswith("SI "):
+            f = l.split()
+            d = {}
+            for kv in f[3:]:
+                n, v = kv.split("=", 1)
+                d[n] = v
+            (st if f[0] == "ST" else si).append(d)
+    ex = [o for o in ops if o.startswith("exit:")]
+    return ops, st, si, (int(ex[-1].split(":")[1]) if ex else None)
+
+
 def prepare(rn, case):
     pr = Prepared()
     pr.case = case
@@ -367,96 +470,129 @@ def prepare(rn, case):
         else:
             pr.filetok[n] = tk.new(v)
             fsl.append("%s=R%d" % (n, pr.filetok[n]))
-    verd = []
-    pr.accept = {}
-    pr.decoded = {}
-    pr.items = {}
-    for s in dict.fromkeys(case.srcs):
-        v = case.files.get(s)
-        if v is None or v == DIR:
+    for n, t in sorted(case.links.items()):
+        fsl.append("%s=L%s" % (n, t))
+    if case.stdin is not None and "-" in case.srcs:
+        pr.filetok["-"] = tk.new(case.stdin)
+        fsl.append("-=R%d" % pr.filetok["-"])
+    pr.fsl = fsl
+    pr.ls = listing(rn, case)
+    # first question: which names does the run process, and into which destinations
+    first = rn.m.ask(model_line(case, fsl, pr.ls, {}, {}))
+    pr.names, pr.dst = [], {}
+    for l in first:
+        if l.startswith("NAMES"):
+            pr.names = l.split()[1:]
+        elif l.startswith("DST"):
+            for kv in l.split()[1:]:
+                s, d = kv.rsplit("=", 1)
+                pr.dst[s] = None if d == "-" else d
+    pr.accept, pr.decoded, pr.items = {}, {}, {}
+    pr.verd = {}
+    pr.content = {}          # effective name -> the bytes it denotes (through a link), when it is a regular file
+
+    def deref(n):
+        if n == "-":
+            return case.stdin
+        v = case.files.get(case.links.get(n, n))
+        return v if isinstance(v, bytes) else None
+
+    for s in dict.fromkeys(pr.names):
+        v = deref(s)
+        if v is None:
             continue
+        pr.content[s] = v
         if case.mode == "C":
             z = tk.new(("Z", s))
-            verd.append("%s=1:0:%d:" % (s, z))
+            pr.verd[s] = ("0", str(z), "")
         else:
             items, accepted, oneshot = rn.classify(v, tk)
             pr.accept[s], pr.decoded[s], pr.items[s] = accepted, oneshot, items
-            verd.append("%s=1:0::%s" % (s, "/".join("%s+%d" % (k, t) for k, t in items)))
-    dsts = []
-    line0 = "FIO;%s;%s;%s;%d%d%d;%s;%s;" % (case.mode, ",".join(case.srcs), case.out, case.force, case.rm,
-                                              case.confirm, ",".join(fsl), ",".join(verd))
-    first = rn.m.ask(line0)          # to learn the destinations
-    pr.dst = {}
-    for l in first:
-        if l.startswith("DST"):
-            for kv in l.split()[1:]:
-                s, d = kv.split("=")
-                pr.dst[s] = None if d == "-" else d
-    probes = list(dict.fromkeys(list(case.files.keys()) + case.srcs + [d for d in pr.dst.values() if d] +
+            pr.verd[s] = ("0", "", "/".join("%s+%d" % (k, t) for k, t in items))
+    probes = list(dict.fromkeys(list(case.files.keys()) + list(case.links.keys()) + list(case.links.values()) +
+                                [s for s in pr.names if s != "-"] + [d for d in pr.dst.values() if d] +
                                 ([case.out[2:]] if case.out.startswith("o:") else [])))
     pr.probes = probes
-    out = rn.m.ask(line0 + ",".join(probes))
-    pr.ops = []
-    pr.st, pr.si = [], []
-    for l in out:
-        if l.startswith("OPS"):
-            pr.ops = l.split()[1:]
-        elif l.startswith("ST ") or l.startswith("SI "):
-            f = l.split()
-            st = {}
-            for kv in f[3:]:
-                n, v = kv.split("=", 1)
-                st[n] = v
-            (pr.st if f[0] == "ST" else pr.si).append(st)
-    pr.model_line = line0 + ",".join(probes)
+    pr.ops, pr.st, pr.si, pr.exit = ask_model(rn, pr, {})
+    pr.model_line = model_line(case, fsl, pr.ls, pr.verd, {}) + ",".join(probes)
     pr.events = canon_model(pr.ops)
     pr.vis = [len(canon_model(pr.ops[:j])) for j in range(len(pr.ops) + 1)]
-    pr.exit = int([o for o in pr.ops if o.startswith("exit:")][-1].split(":")[1]) if any(o.startswith("exit:") for o in pr.ops) else None
-    # well-formedness (hypothesis of crash_safe): sources distinct, no destination is a source, destinations distinct
-    srcs = case.srcs
+    # well-formedness (hypothesis of crash_safe): sources distinct, no destination is a source, destinations distinct,
+    # no destination name is a link, no link source points at a source or a destination
+    srcs = pr.names
     dl = [pr.dst.get(s) for s in srcs if pr.dst.get(s)]
     shared = case.out[2:] if case.out.startswith("o:") else None
+    alld = set(dl) | ({shared} if shared else set())
+    origins = [case.links.get(s, s) for s in srcs]
     pr.wf = (len(set(srcs)) == len(srcs) and not (set(dl) & set(srcs)) and len(set(dl)) == len(dl)
-             and (shared is None or shared not in srcs))
-    # total payload a destination may receive (for the "prefix while open" rule)
-    pr.total = {}
-    for o in pr.ops:
-        f = o.split(":")
-        if f[0] == "w":
-            pr.total.setdefault(f[1], []).extend(parse_toks(f[2]))
-        elif f[0] == "c":
-            pr.total[f[1]] = []
+             and (shared is None or shared not in srcs)
+             and not any(d in case.links for d in alld)
+             and len(set(origins)) == len(origins)
+             and not any(case.links[s] in srcs or case.links[s] in alld for s in srcs if s in case.links))
+    pr.total = totals(pr.ops)
     return pr
 
 
+def totals(ops):
+    """for every destination key: the payloads it may receive, one token list per creation (for the "prefix while open" rule)"""
+    total = {}
+    for o in ops:
+        f = o.split(":")
+        if f[0] == "w":
+            total.setdefault(f[1], [[]])[-1].extend(parse_toks(f[2]))
+        elif f[0] == "c":
+            total.setdefault(f[1], []).append([])
+    return total
+
+
 def read_dir(w):
+    """relative path -> bytes | DIR | ("L", target relative to w)"""
     st = {}
-    for n in os.listdir(w):
-        p = os.path.join(w, n)
-        st[n] = DIR if os.path.isdir(p) else open(p, "rb").read()
+    for root, dirs, files in os.walk(w):
+        for n in dirs + files:
+            p = os.path.join(root, n)
+            rel = os.path.relpath(p, w)
+            if os.path.islink(p):
+                st[rel] = ("L", os.path.normpath(os.path.join(os.path.dirname(rel), os.readlink(p))))
+            elif os.path.isdir(p):
+                st[rel] = DIR
+            else:
+                st[rel] = open(p, "rb").read()
     return st
 
 
-def node_matches(pr, zbytes, name, mnode, real):
+def show_dir(d):
+    return {n: (DIR if v == DIR else ("->" + v[1] if isinstance(v, tuple) else len(v))) for n, v in d.items()}
+
+
+def node_matches(pr, zbytes, name, mnode, real, cut=False):
     """does the real node `real` (bytes | DIR | None) match the model node string?"""
     if mnode == "A":
         return real is None
     if mnode == "D":
         return real == DIR
-    if real is None or real == DIR:
+    if mnode[0] == "L":
+        return real == ("L", mnode[1:])
+    if real is None or real == DIR or isinstance(real, tuple):
         return False
     toks = parse_toks(mnode[1:])
     if mnode[0] == "C":
         exp = resolve(pr, zbytes, toks)
         if exp is None:
             return True        # closed file holding an unpredicted blob (failed frame's partial output)
+        if cut:
+            return exp.startswith(real)     # fclose failed: what libc had not flushed yet is missing
         return real == exp
     # open: any prefix of everything this destination may receive before it is closed
-    tot = resolve(pr, zbytes, pr.total.get(name, toks))
-    if tot is None:
-        known = resolve_prefix(pr, zbytes, pr.total.get(name, toks))
-        return real.startswith(known) or known.startswith(real)
-    return tot.startswith(real)
+    for cand in pr.total.get(name, [toks]):
+        tot = resolve(pr, zbytes, cand)
+        if tot is None:
+            known = resolve_prefix(pr, zbytes, cand)
+            if real.startswith(known) or known.startswith(real):
+                return True
+        elif tot.startswith(real):
+            return True
+    return False
 
 
 def resolve(pr, zbytes, toks):
@@ -496,24 +632,40 @@ def state_in(pr, zbytes, real, states, nvisible=None):
     return -1
 
 
-def visible_done(entries, k, inclusive, relevant):
+def visible_done(entries, k, inclusive, relevant, links=None, stdin_src=False):
     """(lo, hi): number of canonical events of the calls certainly completed before (kill) / up to (signal)
     call #k, and that number plus the calls of other threads that were in flight (entered, not yet returned)"""
     before = [e for e in entries if "act" not in e and (e["idx"] <= k if inclusive else e["idx"] < k)]
-    lo = len(canon_real([e for e in before if e["ret"] is not None or SYS.get(e["nr"]) == "exit_group"], relevant))
+    lo = len(canon_real([e for e in before if e["ret"] is not None or SYS.get(e["nr"]) == "exit_group"], relevant, links, stdin_src))
     inflight = [e for e in before if e["ret"] is None and SYS.get(e["nr"]) != "exit_group"]
     return lo, lo + len(inflight)
 
 
 # ----------------------------------------------------------------------------- direct oracles
 
+def stdout_out(pr):
+    """is stdout the destination of every source (zstdcli's hasStdout)"""
+    case = pr.case
+    return case.out == "c" or (case.out in ("-",) or case.out.startswith("O:")) and pr.names == ["-"]
+
+
+def deref(real, n):
+    """what name n denotes in a directory snapshot, following one symbolic link"""
+    v = real.get(n)
+    if isinstance(v, tuple):
+        v = real.get(v[1])
+    return v
+
+
 def oracle_safe(rn, pr, real, zcache):
-    """the crash_safe predicate on a real directory: every source intact, or its destination stands for it"""
+    """the crash_safe predicate on a real directory: every source intact, or its destination stands for it.
+    (A source reached through a symbolic link is protected as a pre-existing file by oracle_noclobber.)"""
     case = pr.case
     bad = []
-    alld = [pr.dst.get(x) for x in case.srcs if pr.dst.get(x)]
+    names = pr.names
+    alld = [pr.dst.get(x) for x in names if pr.dst.get(x)]
     shared = case.out[2:] if case.out.startswith("o:") else None
-    for s in dict.fromkeys(case.srcs):
+    for s in dict.fromkeys(names):
         orig = case.files.get(s)
         if orig is None or orig == DIR:
             continue
@@ -523,12 +675,13 @@ def oracle_safe(rn, pr, real, zcache):
         if not pr.wf:
             # outside the theorem's hypothesis: judge only the sources whose names do not collide with another
             # source's destination (destination == the source itself stays judged: the same-file rule)
-            if case.srcs.count(s) > 1 or (d is not None and (alld.count(d) > 1 or (d in case.srcs and d != s))) \
-                    or any(pr.dst.get(x) == s for x in case.srcs if x != s) or (shared == s and len(case.srcs) > 1):
+            if names.count(s) > 1 or (d is not None and (alld.count(d) > 1 or (d in names and d != s))) \
+                    or any(pr.dst.get(x) == s for x in names if x != s) or (shared == s and len(names) > 1) \
+                    or s in case.links.values():
                 continue
         ok = False
-        if d is not None and isinstance(real.get(d), bytes):
-            got = real[d]
+        if d is not None and isinstance(deref(real, d), bytes):
+            got = deref(real, d)
             if case.mode == "C":
                 key = hashlib.sha1(got).hexdigest()
                 if key not in zcache:
@@ -542,22 +695,34 @@ def oracle_safe(rn, pr, real, zcache):
 
 
 def oracle_noclobber(pr, real, final=False):
-    """pre-existing files: untouched unless (-f / confirmed and it is a destination) or (a source removed by --rm)"""
+    """pre-existing files, directories and links: untouched unless (-f / confirmed and it is a destination) or
+    (a source removed by --rm)"""
     case = pr.case
     bad = []
     dsts = set(d for d in pr.dst.values() if d)
     if case.out.startswith("o:"):
         dsts.add(case.out[2:])
-    may_rm = case.rm and case.mode != "T" and case.out != "c"
+    may_rm = case.rm and case.mode != "T" and not stdout_out(pr)
     for n, v in case.files.items():
         if real.get(n) == v:
             continue
         if n in dsts and (case.force or case.confirm):
             continue            # the user asked for the overwrite
-        if n in case.srcs and may_rm:
+        if n in pr.names and may_rm:
             continue            # judged by oracle_safe
         bad.append("pre-existing %s %s although %s" % (n, "vanished" if real.get(n) is None else "was modified",
                                                        "no -f was given" if n in dsts else "it is not a destination"))
+    for n, t in case.links.items():
+        if real.get(n) == ("L", t):
+            continue
+        if n in dsts and (case.force or case.confirm):
+            continue            # the link itself is replaced by the new file
+        if n in pr.names and may_rm and case.force:
+            continue            # --rm removes the link (its target is protected above)
+        shape = (n in dsts and t not in case.files and t not in case.links and real.get(n) is None and isinstance(real.get(t), bytes))
+        bad.append("pre-existing symbolic link %s %s although %s%s" % (
+            n, "vanished" if real.get(n) is None else "was replaced", "no -f was given" if n in dsts else "it is not a destination",
+            DANGLING if shape else ""))
     return bad
 
 
@@ -577,16 +742,23 @@ def fs_idx(entries, relevant):
     return first, last
 
 
-def check_case(rn, case, nkill, nint, rng, replay_only=None):
+def check_case(rn, case, nkill, nint, rng, replay_only=None, nfault=0):
     """returns number of violations reported"""
     ctx = rn.ctx
-    rn.dict = case.files.get(case.extra[case.extra.index("-D") + 1]) if "-D" in case.extra else None
+    dname = case.dict if case.dict is not None else case.patch
+    rn.dict = case.files.get(case.links.get(dname, dname)) if dname is not None else None
+    if not isinstance(rn.dict, bytes):
+        rn.dict = None
     pr = prepare(rn, case)
     relevant = set(pr.probes)
-    if "-D" in case.extra:
-        relevant.discard(case.extra[case.extra.index("-D") + 1])     # reading the dictionary is not part of the protocol
+    if dname is not None:
+        relevant.discard(dname)     # reading the dictionary is not part of the protocol
+    pr.relevant = relevant
     nviol = 0
     zcache = {}
+    names = pr.names
+    so = stdout_out(pr)
+    stdin_src = "-" in names
 
     def report(kind, what, extra=None, no_input=False, key=None):
         nonlocal nviol
@@ -594,26 +766,28 @@ def check_case(rn, case, nkill, nint, rng, replay_only=None):
         rep = dict(kind=kind, case=case.to_json(), argv=case.argv(), model_ops=pr.ops)
         if extra:
             rep.update(extra)
-        ctx.violation(rep, what="%s [%s: zstd %s]" % (what, case.name, " ".join(case.argv())), no_input=no_input, key=key)
+        if not ctx.violation(rep, what="%s [%s: zstd %s]" % (what, case.name, " ".join(case.argv())), no_input=no_input, key=key):
+            nviol -= 1          # a known finding: printed as KNOWN-FINDING, does not stop the run
 
     # ---- reference run
     r = rn.execute(case)
-    real_ev = canon_real(r["entries"], relevant)
+    real_ev = canon_real(r["entries"], relevant, case.links, stdin_src)
     real = read_dir(r["w"])
     status = r["status"]
     code = status[1] if status and status[0] == "EXIT" else None
     zbytes = {}
     if case.mode == "C":
-        for s in case.srcs:
+        alld_ = [pr.dst.get(x) for x in names]
+        for s in names:
             d = pr.dst.get(s)
-            if d and isinstance(real.get(d), bytes):
-                zbytes[s] = real[d]
+            if d and isinstance(real.get(d), bytes) and alld_.count(d) == 1:
+                zbytes[s] = real[d]         # (two sources into one name: which frame the file holds is not predicted)
     pr.zbytes = zbytes
     final_model = pr.st[-1]
     sig = ("trace", case.shape(), tuple(e.split(":")[0] for e in pr.events))
     ctx.count(sig, nontrivial=len(pr.events) > 1)
     ctx.cov["traces_validated_against_impl"] += 1
-    ctx.sample(dict(argv=case.argv(), files={k: (DIR if v == DIR else len(v)) for k, v in case.files.items()},
+    ctx.sample(dict(argv=case.argv(), files={k: (DIR if v == DIR else len(v)) for k, v in case.files.items()}, links=case.links,
                     model_events=pr.events, real_events=real_ev, exit=code))
     mismatch = []
     if real_ev != pr.events:
@@ -624,74 +798,93 @@ def check_case(rn, case, nkill, nint, rng, replay_only=None):
     for n, v in final_model.items():
         # (a file made of unpredicted compressed frames matches any bytes here: it is judged by decoding it below)
         if not node_matches(pr, zbytes, n, v, real.get(n)):
-            mismatch.append("final state of %s: model %s, real %s" % (n, v[:40], "absent" if real.get(n) is None else
-                                                                       ("dir" if real.get(n) == DIR else "%d bytes" % len(real[n]))))
+            mismatch.append("final state of %s: model %s, real %s" % (n, v[:40], show_dir({n: real.get(n)})[n] if real.get(n) is not None else "absent"))
     # ---- direct oracles on the completed run
     concrete = []
     concrete += oracle_safe(rn, pr, real, zcache)
     concrete += oracle_noclobber(pr, real, final=True)
-    srcs_ok = [s for s in case.srcs if isinstance(case.files.get(s), bytes)]
+    srcs_ok = [s for s in names if s in pr.content]
+    skipped = [s for s in names if case.mode == "C" and case.excl and s != "-" and
+               os.path.splitext(s)[1] in (".zst", ".tzst", ".gz", ".tgz", ".lzma", ".xz", ".txz", ".lz4", ".tlz4") and os.path.basename(s) != os.path.splitext(s)[1]]
+    sfile = dname is not None and [s for s in names if s != "-" and case.links.get(s, s) == case.links.get(dname, dname)] or []
     if case.mode == "C":
         # every destination that exists at the end must decode to its source(s)
         for s in srcs_ok:
             d = pr.dst.get(s)
-            if d and isinstance(real.get(d), bytes) and final_model.get(d, "A")[0] == "C" and d not in case.files:
-                if rn.lib_decode(real[d]) != case.files[s]:
+            if pr.wf and d and isinstance(real.get(d), bytes) and final_model.get(d, "A")[0] == "C" and d not in case.files:
+                if rn.lib_decode(real[d]) != pr.content[s]:
                     concrete.append("destination %s does not decode to source %s" % (d, s))
         if code == 0:
             for s in srcs_ok:
                 d = pr.dst.get(s)
-                if d and not isinstance(real.get(d), bytes):
+                if d and not isinstance(deref(real, d), bytes) and s not in skipped:
                     concrete.append("exit status 0 but destination %s is missing" % d)
-        if case.out == "c" or (case.out.startswith("o:") and len(case.srcs) > 1 and code == 0):
-            blob = r["stdout"] if case.out == "c" else real.get(case.out[2:])
-            want = b"".join(case.files[s] for s in srcs_ok)
+        if so or (case.out.startswith("o:") and len(names) > 1 and code == 0):
+            blob = r["stdout"] if so else real.get(case.out[2:])
+            want = b"".join(pr.content[s] for s in srcs_ok if s not in skipped and s not in sfile)
             if code == 0 and (not isinstance(blob, bytes) or (rn.lib_decode(blob) if blob else b"") != want):
                 if not (want == b"" and not srcs_ok):
                     concrete.append("concatenated output does not decode to the concatenation of the sources")
-    else:
-        passthrough = case.force and case.out == "c" and case.mode == "D"
-        all_ok = all(isinstance(case.files.get(s), bytes) and pr.accept.get(s) for s in case.srcs)
-        if case.mode == "D" and case.out == "-":
-            all_ok = all_ok and all(pr.dst.get(s) for s in case.srcs)
+    elif names:
+        passthrough = case.force and so and case.mode == "D"
+        all_ok = all(s in pr.content and pr.accept.get(s) for s in names)
+        if case.mode == "D" and not so and not case.out.startswith("o:"):
+            all_ok = all_ok and all(pr.dst.get(s) for s in names if s != "-")
         # "every input accepted => status 0" is only claimed when no destination rule can refuse the operation
         refused = False
-        if case.mode == "D" and case.out != "c":
-            dl = [pr.dst.get(s) for s in case.srcs]
+        if case.mode == "D" and not so:
+            dl = [pr.dst.get(s) for s in names]
             o = case.out[2:] if case.out.startswith("o:") else None
-            refused = (not pr.wf or any(d in case.files for d in dl if d) or (o is not None and o in case.files)
-                       or (o is not None and len(case.srcs) > 1 and not (case.force or case.confirm)))
+            refused = (not pr.wf or any(d in case.files or d in case.links for d in dl if d) or (o is not None and (o in case.files or o in case.links))
+                       or (o is not None and len(names) > 1 and not (case.force or case.confirm))
+                       or any(os.path.dirname(d) and case.files.get(os.path.dirname(d)) != DIR for d in dl if d))
         if not passthrough:
             if code == 0 and not all_ok:
                 concrete.append("exit status 0 although the library rejects an input (or an input is missing)")
-            if code != 0 and all_ok and not refused:
+            if code != 0 and all_ok and not refused and pr.exit not in (31, 32, 33):
                 concrete.append("exit status %s although the library accepts every input" % (status,))
         if case.mode == "D":
             for s in srcs_ok:
                 d = pr.dst.get(s)
-                if not d or d in case.srcs:
+                if not d or d in names:
                     continue
                 got = real.get(d)
                 pre = case.files.get(d)
                 if pr.accept.get(s) and code == 0 and got != pr.decoded[s]:
                     concrete.append("destination %s differs from the library's decoding of %s" % (d, s))
-                if not pr.accept.get(s) and got is not None and got != pre and len(case.srcs) == 1:
+                if not pr.accept.get(s) and got is not None and got != pre and len(names) == 1 and d not in case.links:
                     concrete.append("failed decompression of %s left an output file %s behind (%d bytes)" % (s, d, len(got) if isinstance(got, bytes) else -1))
-            if case.out == "c" and not passthrough:
+            if so and not passthrough:
                 want = b""
-                for s in case.srcs:
-                    if isinstance(case.files.get(s), bytes) and pr.accept.get(s):
+                for s in names:
+                    if s in pr.content and pr.accept.get(s):
                         want += pr.decoded[s]
                     else:
                         break
                 if not r["stdout"].startswith(want) or (code == 0 and r["stdout"] != want):
                     concrete.append("stdout differs from the library's decoding")
-    if code is not None and code != 0 and len(case.srcs) == 1 and case.mode != "T" and case.out != "c":
-        d = pr.dst.get(case.srcs[0])
-        if d and d != case.srcs[0] and real.get(d) is not None and real.get(d) != case.files.get(d):
+    if code is not None and code != 0 and len(names) == 1 and case.mode != "T" and not so:
+        d = pr.dst.get(names[0])
+        if d and d != names[0] and d not in case.links and real.get(d) is not None and real.get(d) != case.files.get(d):
             concrete.append("non-zero exit status but an output file %s from this run is left behind" % d)
+    if dname is not None and names and not (case.dict is not None and case.patch is not None):
+        dv = case.files.get(case.links.get(dname, dname))
+        if not isinstance(dv, bytes):
+            if code == 0:
+                concrete.append("exit status 0 although the dictionary %s is missing / not a regular file" % dname)
+            for n, v in case.files.items():
+                if real.get(n) != v:
+                    concrete.append("the dictionary %s is missing / not a regular file, yet %s was %s" % (dname, n, "removed" if real.get(n) is None else "modified"))
+            for n in real:
+                if n not in case.files and n not in case.links:
+                    concrete.append("the dictionary %s is missing / not a regular file, yet %s was created" % (dname, n))
+    if case.mode == "C" and code == 0 and not case.rec:
+        for s in names:
+            if s != "-" and s not in pr.content and s not in skipped:
+                concrete.append("exit status 0 although the input %s is missing or not a regular file" % s)
     for w_ in concrete:
-        report("oracle-final", w_, dict(real_events=real_ev, status=status))
+        report("oracle-final", w_, dict(real_events=real_ev, status=status),
+               key="C19-dangling-destination-link-artefact" if (DANGLING in w_ and code not in (0, None)) else None)
     rn.cleanup(r)
     if concrete:
         return nviol
@@ -706,12 +899,18 @@ def check_case(rn, case, nkill, nint, rng, replay_only=None):
             rn.cleanup(kr)
             if bad:
                 report("kill", "killed at system call #%d: %s (the run's file-operation sequence also differs from fio_ops: real=%s model=%s)" %
-                       (k, bad[0], real_ev, pr.events), dict(k=k, dir={n: (DIR if v == DIR else len(v)) for n, v in kreal.items()}))
+                       (k, bad[0], real_ev, pr.events), dict(k=k, dir=show_dir(kreal)))
                 found = True
                 break
         if not found:
             report("tie-trace", "; ".join(mismatch)[:1500], dict(real_events=real_ev, status=status), no_input=True)
         return nviol
+
+    # ---- injected I/O faults
+    if nfault:
+        nviol += check_faults(rn, pr, r["entries"], nfault, rng, report, zcache)
+        if nviol:
+            return nviol
 
     # ---- kill points
     first, last = fs_idx(r["entries"], relevant)
@@ -729,16 +928,16 @@ def check_case(rn, case, nkill, nint, rng, replay_only=None):
         kr = rn.execute(case, k=k, action="kill")
         kreal = read_dir(kr["w"])
         acted = any("act" in e for e in kr["entries"])
-        nv = visible_done(kr["entries"], k, False, relevant) if acted else (len(pr.events), len(pr.events))
+        nv = visible_done(kr["entries"], k, False, relevant, case.links, stdin_src) if acted else (len(pr.events), len(pr.events))
         j = state_in(pr, zbytes, kreal, pr.st, nv)
         bad = oracle_safe(rn, pr, kreal, zcache) + oracle_noclobber(pr, kreal)
         ctx.count(("kill", case.shape(), j), nontrivial=True)
         for w_ in bad:
             report("kill", "killed at system call #%d: %s" % (k, w_),
-                   dict(k=k, dir={n: (DIR if v == DIR else len(v)) for n, v in kreal.items()}))
+                   dict(k=k, dir=show_dir(kreal)))
         if j < 0 and not bad:
             report("tie-kill", "directory after kill at system call #%d (%s file operations completed) is not the state of fio_ops after that many operations: %s" %
-                   (k, nv, {n: (DIR if v == DIR else len(v)) for n, v in kreal.items()}), dict(k=k), no_input=True)
+                   (k, nv, show_dir(kreal)), dict(k=k), no_input=True)
             rn.cleanup(kr)
             return nviol
         rn.cleanup(kr)
@@ -763,7 +962,7 @@ def check_case(rn, case, nkill, nint, rng, replay_only=None):
                 on_main = at is None or at["tid"] == main_tid
                 if acted:
                     # the handler's own calls come after the ACT mark: count only what the run did up to call #k
-                    nv = visible_done(kr["entries"], k, True, relevant)
+                    nv = visible_done(kr["entries"], k, True, relevant, case.links, stdin_src)
                 else:
                     nv = (len(pr.events), len(pr.events))
                 # the model's handler is an atomic step of the main thread: the state tie applies when the signal
@@ -777,12 +976,195 @@ def check_case(rn, case, nkill, nint, rng, replay_only=None):
                     report("sigint", "SIGINT at system call #%d (wide grid): %s" % (k, w_), dict(k=k))
                 if j < 0 and not bad:
                     report("tie-sigint", "directory after SIGINT at system call #%d of the wide grid (%s file operations completed) is not a state of sigint_ops after that many operations: %s" %
-                           (k, nv, {n: (DIR if v == DIR else len(v)) for n, v in kreal.items()}), dict(k=k), no_input=True)
+                           (k, nv, show_dir(kreal)), dict(k=k), no_input=True)
                     rn.cleanup(kr)
                     return nviol
                 rn.cleanup(kr)
                 if bad:
                     return nviol
+    return nviol
+
+
+# ----------------------------------------------------------------------------- injected I/O faults
+
+DANGLING = " (dangling destination link: the failed run removed the link and left the partial output under the link's target name)"
+WRITE_CODES = (70, 91, 92, 93, 95, 69)      # EXM_THROW codes of the write pool (plain write, 1 GB skip, sparse skip / write, last zero)
+ERRNOS = {"open": (13, 5, 24), "creat": (28, 13, 5), "wfail": (28, 5, 122), "close": (5, 28, 122), "close_src": (5,),
+          "ovw_unlink": (13, 5), "art_unlink": (13, 5), "rm": (13, 5, 30), "ignored": (1, 28)}
+MATTERS = ("open", "creat", "wfail", "close", "rm")     # a failure at these sites must end in a non-zero exit status
+
+
+def fault_sites(pr, entries):
+    """classify the system calls of the reference run by the model's fault sites:
+    list of dict(k, nr, path, site, key = whose verdict carries the fault, src = the source being processed)"""
+    case, names = pr.case, pr.names
+    own = {d: s for s, d in pr.dst.items() if d}
+    shared = case.out[2:] if case.out.startswith("o:") and len(names) > 1 else None
+    if case.out.startswith("o:") and len(names) == 1:
+        own[case.out[2:]] = names[0]
+    so = stdout_out(pr)
+    dname = case.dict if case.dict is not None else case.patch
+    fd = {}
+    if "-" in names:
+        fd[0] = ("-", "r", "-")
+    cur = "-" if names == ["-"] else None
+    created = set()
+    sites = []
+    ents = [e for e in entries if "act" not in e]
+    first, _last = fs_idx(entries, pr.relevant | ({dname} if dname else set()))
+    if first is None:
+        first = min([e["idx"] for e in ents if e["a"][0] in (0, 1) and SYS.get(e["nr"]) in ("write", "close")] or [10 ** 9])
+    for j, e in enumerate(ents):
+        name = SYS.get(e["nr"], str(e["nr"]))
+        p = e["path"][2:] if e["path"].startswith("./") else e["path"]
+        nxt = ents[j + 1] if j + 1 < len(ents) else None
+        site = key = None
+        if name in ("openat", "open", "creat"):
+            flags = e["a"][2] if name == "openat" else (e["a"][1] if name == "open" else O_CREAT | O_TRUNC | O_WRONLY)
+            if flags & (O_CREAT | O_TRUNC | O_WRONLY | O_RDWR):
+                if p in own or p == shared:
+                    key = own.get(p, p)
+                    site = "creat"
+                    created.add(p)
+                    if e["ret"] is not None and e["ret"] >= 0:
+                        fd[e["ret"]] = (p, "c", key)
+            elif p in names:
+                site, key, cur = "open", p, p
+                created = set()
+                if e["ret"] is not None and e["ret"] >= 0:
+                    fd[e["ret"]] = (p, "r", p)
+            elif dname is not None and p == dname:
+                site, key = "open", p
+        elif name == "close":
+            x = fd.pop(e["a"][0], None)
+            if x:
+                site, key = ("close", x[2]) if x[1] == "c" else ("close_src", x[0])
+            elif e["a"][0] == 1 and case.mode != "T" and (so or "-" in names):
+                site, key = "close", (cur if (len(names) == 1 or not so) else "<stdout>")
+        elif name in ("write", "pwrite64", "writev", "lseek"):
+            x = fd.get(e["a"][0])
+            is_out = (x is not None and x[1] == "c") or (e["a"][0] == 1 and case.mode != "T" and (so or "-" in names))
+            if is_out:
+                flush_in_close = (name != "lseek" and nxt is not None and SYS.get(nxt["nr"]) == "close" and nxt["a"][0] == e["a"][0]
+                                  and nxt["tid"] == e["tid"])
+                if flush_in_close:
+                    site = "close"
+                    key = x[2] if x is not None else (cur if (len(names) == 1 or not so) else "<stdout>")
+                else:
+                    site, key = "wfail", (x[2] if (x is not None and x[2] in names) else cur)
+        elif name in ("unlink", "unlinkat"):
+            if p in own or p == shared:
+                site, key = ("art_unlink" if p in created else "ovw_unlink"), own.get(p, p)
+            elif p in names:
+                site, key = "rm", p
+        elif name in ("fchmod", "fchown"):
+            if e["a"][0] in fd:
+                site, key = "ignored", None
+        elif name == "utimensat":
+            if p in own:
+                site, key = "ignored", None
+        if site is not None and e["idx"] >= first and (key is not None or site == "ignored"):
+            sites.append(dict(k=e["idx"], nr=e["nr"], path=p, fd=e["a"][0], site=site, key=key, src=cur))
+    return sites
+
+
+def check_faults(rn, pr, entries, nfault, rng, report, zcache):
+    """every chosen system call of the run fails once (ptrace: the call is skipped and returns -errno):
+    direct oracles (no source lost, nothing clobbered, non-zero status, no partial destination left) and the
+    model's prediction of trace, exit status and final directory under the same fault"""
+    ctx, case = rn.ctx, pr.case
+    sites = fault_sites(pr, entries)
+    if nfault < len(sites):
+        keep = set(rng.sample(range(len(sites)), nfault))
+        # one of each kind at least
+        seen = set()
+        for j, x in enumerate(sites):
+            if x["site"] not in seen:
+                seen.add(x["site"])
+                keep.add(j)
+        sites = [x for j, x in enumerate(sites) if j in keep]
+    nviol = 0
+    thorough = ctx.tier == "thorough"
+    for x in sites:
+        errs = ERRNOS[x["site"]]
+        plans = [("fail", E) for E in (errs if thorough else (errs[rng.randrange(len(errs))],))]
+        if thorough and x["site"] == "wfail":
+            plans.append(("failp", 28))
+        for mode, E in plans:
+            kr = rn.execute(case, k=x["k"], action="%s:%d" % (mode, E))
+            at = next((e for e in kr["entries"] if "act" not in e and e["idx"] == x["k"]), None)
+            injected = any(e.get("act") == "fail" for e in kr["entries"])
+            atp = None if at is None else (at["path"][2:] if at["path"].startswith("./") else at["path"])
+            if at is None or not injected or at["nr"] != x["nr"] or (atp != x["path"] if x["path"] != "-" else at["a"][0] != x["fd"]):
+                ctx.notes["fault_points_skipped"] = ctx.notes.get("fault_points_skipped", 0) + 1
+                if os.environ.get("C19_DEBUG"):
+                    core.log("skipped fault point", case.name, x, "at", at, "injected", injected)
+                rn.cleanup(kr)
+                continue
+            kreal = read_dir(kr["w"])
+            st = kr["status"]
+            code = st[1] if st and st[0] == "EXIT" else None
+            faults = {}
+            if x["site"] != "ignored":
+                faults[x["key"]] = {x["site"]: (0 if x["site"] == "wfail" else 1)}
+            if x["site"] == "close_src" and case.mode == "C":
+                pass
+            mops, mst, msi, mexit = ask_model(rn, pr, faults)
+            mev = canon_model(mops)
+            rev = canon_real(kr["entries"], pr.relevant, case.links, "-" in pr.names)
+            ctx.count(("fault", case.shape(), x["site"], tuple(e.split(":")[0] for e in mev)), nontrivial=True)
+            ctx.cov["traces_validated_against_impl"] += 1
+            what = "%s of %s failing with errno %d at system call #%d%s" % (
+                SYS.get(x["nr"]), x["path"] if x["path"] != "-" else "fd %d" % x["fd"], E, x["k"], " and from then on" if mode == "failp" else "")
+            bad = []
+            keyed = None
+            # direct oracles
+            bad += oracle_safe(rn, pr, kreal, zcache)
+            bad += [b for b in oracle_noclobber(pr, kreal) if not (x["site"] == "creat" and (case.force or case.confirm))]
+            if x["site"] in MATTERS and code == 0:
+                bad.append("exit status 0 although the call failed")
+            if code is None:
+                bad.append("the tool was killed by a signal: %s" % (st,))
+            if code not in (0, None) and x["site"] != "art_unlink" and x["key"] in pr.dst and x["site"] != "ignored":
+                d = pr.dst.get(x["key"])
+                if d and d not in case.files and d not in case.links and isinstance(kreal.get(d), bytes):
+                    got = kreal[d]
+                    if case.mode == "C":
+                        h = hashlib.sha1(got).hexdigest()
+                        if h not in zcache:
+                            zcache[h] = rn.lib_decode(got)
+                        complete = zcache[h] == pr.content.get(x["key"])
+                    else:
+                        complete = bool(pr.accept.get(x["key"])) and got == pr.decoded.get(x["key"])
+                    if not complete:
+                        bad.append("exit status %d and the partial destination %s (%d bytes) is left behind" % (code, d, len(got)))
+                        if x["site"] == "wfail":
+                            keyed = "C19-write-error-leaves-partial-destination"
+            for b in bad:
+                report("fault", "%s: %s" % (what, b), dict(k=x["k"], errno=E, site=x["site"], dir=show_dir(kreal), status=st), key=keyed)
+                nviol += 1
+            if not bad:
+                # the model's prediction under the same fault
+                tie = []
+                if x["site"] == "wfail":
+                    if not (mexit == 70 and code in WRITE_CODES):
+                        tie.append("exit status %s, model says %s (write error)" % (st, mexit))
+                elif code != mexit:
+                    tie.append("exit status %s, model says %s" % (st, mexit))
+                if x["site"] == "wfail":     # the model has one code for the write pool's EXM_THROWs
+                    rev = [("exit:70" if (e.startswith("exit:") and int(e[5:]) in WRITE_CODES) else e) for e in rev]
+                if rev != mev:
+                    tie.append("file-operation sequence differs from fio_ops under the fault: real=%s model=%s" % (rev, mev))
+                for n, v in mst[-1].items():
+                    if not node_matches(pr, pr.zbytes, n, v, kreal.get(n), cut=(x["site"] == "close")):
+                        tie.append("final state of %s: model %s, real %s" % (n, v[:40], show_dir({n: kreal.get(n)})[n] if kreal.get(n) is not None else "absent"))
+                if tie:
+                    report("tie-fault", "%s (model fault site %s of %s): %s" % (what, x["site"], x["key"], "; ".join(tie)[:1200]),
+                           dict(k=x["k"], errno=E, site=x["site"], real_events=rev, model_events=mev, status=st), no_input=True)
+                    nviol += 1
+            rn.cleanup(kr)
+            if nviol:
+                return nviol
     return nviol
 
 
@@ -814,6 +1196,25 @@ class Gen:
             raise RuntimeError("c19_lib compress failed " + err)
         return open(b, "rb").read()
 
+    def zcli(self, args, files, outname):
+        """run the real CLI (unsupervised) to manufacture an input"""
+        base = os.path.join(self.rn.ctx.scratch, "gencli")
+        shutil.rmtree(base, ignore_errors=True)
+        os.makedirs(base)
+        for n, v in files.items():
+            with open(os.path.join(base, n), "wb") as f:
+                f.write(v)
+        rc, out, err = core.sh([self.rn.t.zstd, "-q"] + args, cwd=base, timeout=120)
+        if rc != 0:
+            raise RuntimeError("zstd %s failed: %s" % (args, err))
+        return open(os.path.join(base, outname), "rb").read()
+
+    def zdict(self, data, dic):
+        return self.zcli(["-D", "dict", "in", "-o", "out"], {"in": data, "dict": dic}, "out")
+
+    def zpatch(self, new, old):
+        return self.zcli(["--patch-from=old", "new", "-o", "out"], {"new": new, "old": old}, "out")
+
     def skippable(self, n):
         return (0x184D2A50 + self.rng.randrange(16)).to_bytes(4, "little") + n.to_bytes(4, "little") + bytes(self.rng.randrange(256) for _ in range(n))
 
@@ -842,6 +1243,13 @@ class Gen:
             return b""
         if kind == "notzstd":
             return b"plain text, no frame here " * rng.randrange(1, 4)
+        if kind == "skip-only":
+            return self.skippable(rng.randrange(0, 40)) + self.skippable(0)
+        if kind == "skip-first":
+            return self.skippable(rng.randrange(0, 40)) + good
+        if kind == "good-then-trunc":
+            g = self.z(text(rng, 3000))
+            return good + g[:len(g) - rng.randrange(1, 9)]
         if kind == "good-then-corrupt":
             g = bytearray(self.z(text(rng, 3000)))
             g[len(g) - 2] ^= 0x10
@@ -893,6 +1301,146 @@ def corpus(g):
                 files={"a.zst": ZA, "b.zst": g.zfile("corrupt", 800), "c.zst": g.zfile("good", 90)}))
     cs.append(C("t-rm", "T", ["a.zst"], rm=True, files={"a.zst": ZA}))
     cs.append(C("t-mixed", "T", ["a.zst", "b.zst"], rm=True, files={"a.zst": ZA, "b.zst": g.zfile("trunc", 400)}))
+    return cs
+
+
+def corpus2(g, quick):
+    """the widened grammar (stdin / stdout, -O, -r, --exclude-compressed, --rm / -k, -D, --patch-from, symbolic links),
+    the fault catalogue (every call of these runs fails once) and decompression of multi-frame inputs under every flag set"""
+    rng = g.rng
+    A = text(rng, 5000)
+    B = text(rng, 700)
+    Cc = text(rng, 90)
+    OLD = b"previous content of the destination\n"
+    ZA = g.zfile("good", 5000)
+    ZB = g.zfile("good", 300)
+    cs = []
+    C = Case
+
+    def add(case, nk=4, ni=1, nfault=0):
+        case.nk, case.ni, case.nfault = nk, ni, nfault
+        cs.append(case)
+        return case
+
+    # ---- fault catalogue: every file-system call of these runs fails once
+    F = 10 ** 6
+    add(C("f-c-rm", "C", ["a"], rm=True, files={"a": A}), nfault=F)
+    add(C("f-c-force-exists-rm", "C", ["a"], force=True, rm=True, files={"a": A, "a.zst": OLD}), nfault=F)
+    add(C("f-d-rm", "D", ["a.zst"], rm=True, files={"a.zst": ZA}), nfault=F)
+    add(C("f-d-force-exists-rm", "D", ["a.zst"], force=True, rm=True, files={"a.zst": ZA, "a": OLD}), nfault=F)
+    add(C("f-c-o-rm", "C", ["a"], out="o:x.zst", rm=True, files={"a": A}), nfault=F)
+    add(C("f-d-multiframe-rm", "D", ["m.zst"], rm=True, files={"m.zst": g.zfile("multi", 6000)}), nfault=F)
+    add(C("f-d-corrupt-rm", "D", ["a.zst"], rm=True, files={"a.zst": g.zfile("corrupt", 5000)}), nfault=F)
+    add(C("f-c-concat", "C", ["a", "b"], out="o:out", force=True, rm=True, files={"a": A, "b": B}), nfault=F)
+    add(C("f-d-concat", "D", ["a.zst", "b.zst"], out="o:out", force=True, files={"a.zst": ZA, "b.zst": ZB, "out": OLD}), nfault=F)
+    add(C("f-c-stdout", "C", ["a"], out="c", files={"a": A}), nfault=F)
+    add(C("f-d-stdout-two", "D", ["a.zst", "b.zst"], out="c", rm=True, files={"a.zst": ZA, "b.zst": ZB}), nfault=F)
+    add(C("f-c-three-rm", "C", ["a", "b", "c"], rm=True, files={"a": A, "b": B, "c": Cc}), nfault=F)
+    add(C("f-d-two-one-bad-rm", "D", ["a.zst", "b.zst", "c.zst"], rm=True,
+          files={"a.zst": ZA, "b.zst": g.zfile("trunc", 800), "c.zst": ZB}), nfault=F)
+    add(C("f-c-stdin-o", "C", ["-"], out="o:x.zst", stdin=A), nfault=F)
+    add(C("f-c-outdir-rm", "C", ["d/a", "b"], out="O:out", rm=True, files={"d": DIR, "d/a": A, "b": B, "out": DIR}), nfault=F)
+    dic = text(rng, 3000)
+    add(C("f-c-dict-rm", "C", ["a"], rm=True, dictf="dict", files={"a": A, "dict": dic}), nfault=F)
+    add(C("f-t-two", "T", ["a.zst", "b.zst"], rm=True, files={"a.zst": ZA, "b.zst": ZB}), nfault=F)
+
+    # ---- stdin / stdout
+    add(C("io-c-stdin-stdout", "C", [], stdin=A))
+    add(C("io-c-dash-force", "C", ["-"], force=True, stdin=A))
+    add(C("io-c-dash-c-rm", "C", ["-"], out="c", rm=True, stdin=B))
+    add(C("io-d-stdin-stdout", "D", ["-"], stdin=ZA))
+    add(C("io-d-stdin-o", "D", ["-"], out="o:x", rm=True, stdin=ZA))
+    add(C("io-d-stdin-o-exists", "D", ["-"], out="o:x", stdin=ZA, files={"x": OLD}))
+    add(C("io-d-stdin-passthrough", "D", ["-"], out="c", force=True, stdin=b"not a frame at all\n"))
+    add(C("io-d-stdin-junk", "D", ["-"], out="c", stdin=b"not a frame at all\n"))
+    add(C("io-c-stdin-and-file-rm", "C", ["-", "a"], rm=True, stdin=B, files={"a": A}))
+    add(C("io-d-file-and-stdin-rm", "D", ["a.zst", "-"], rm=True, stdin=ZB, files={"a.zst": ZA}))
+    add(C("io-c-stdin-empty", "C", ["-"], stdin=b""))
+    add(C("io-d-stdin-empty", "D", ["-"], stdin=b""))
+    add(C("io-d-c-force-rm", "D", ["a.zst", "p.bin"], out="c", force=True, rm=True, files={"a.zst": ZA, "p.bin": b"plain bytes\n"}))
+    # ---- output directory (flat)
+    add(C("od-c", "C", ["a", "d/b"], out="O:out", files={"a": A, "d": DIR, "d/b": B, "out": DIR}))
+    add(C("od-c-missing-dir", "C", ["a"], out="O:nodir", rm=True, files={"a": A}))
+    add(C("od-c-collision", "C", ["d1/a", "d2/a"], out="O:out", rm=True, files={"d1": DIR, "d2": DIR, "d1/a": A, "d2/a": B, "out": DIR}))
+    add(C("od-c-collision-force", "C", ["d1/a", "d2/a"], out="O:out", force=True, files={"d1": DIR, "d2": DIR, "d1/a": A, "d2/a": B, "out": DIR}))
+    add(C("od-d-rm", "D", ["d/a.zst", "b.tzst"], out="O:out/", rm=True, files={"d": DIR, "d/a.zst": ZA, "b.tzst": ZB, "out": DIR}))
+    add(C("od-d-exists", "D", ["a.zst"], out="O:out", rm=True, files={"a.zst": ZA, "out": DIR, "out/a": OLD}))
+    add(C("od-is-file", "C", ["a"], out="O:out", rm=True, files={"a": A, "out": OLD}))
+    # ---- -r
+    tree = {"t": DIR, "t/a": A, "t/sub": DIR, "t/sub/b": B, "t/sub/deep": DIR, "t/sub/deep/c.zst": ZB, "t/empty": DIR}
+    add(C("r-c", "C", ["t"], rec=True, files=tree))
+    add(C("r-c-rm", "C", ["t", "x"], rec=True, rm=True, files=dict(tree, x=Cc)))
+    add(C("r-c-excl-rm", "C", ["t"], rec=True, rm=True, excl=True, files=tree))
+    add(C("r-c-links", "C", ["t"], rec=True, rm=True, files=tree, links={"t/l": "t/a", "t/sub/ld": "t/sub/deep"}))
+    add(C("r-c-links-force", "C", ["t"], rec=True, force=True, files={"t": DIR, "t/a": A, "other": B}, links={"t/l": "other"}))
+    add(C("r-d-rm", "D", ["t"], rec=True, rm=True, files={"t": DIR, "t/a.zst": ZA, "t/sub": DIR, "t/sub/b.zst": ZB, "t/sub/n.txt": Cc}))
+    add(C("r-empty-dir", "C", ["e"], rec=True, rm=True, files={"e": DIR}))
+    add(C("r-c-outdir", "C", ["t"], rec=True, out="O:out", files=dict(tree, out=DIR)))
+    add(C("dir-without-r", "C", ["t", "x"], rm=True, files=dict(tree, x=Cc)))
+    # ---- --exclude-compressed
+    add(C("x-c-rm", "C", ["a", "b.zst", "c.gz", "d.txt", ".zst"], excl=True, rm=True,
+          files={"a": A, "b.zst": ZB, "c.gz": Cc, "d.txt": B, ".zst": Cc}))
+    add(C("x-missing", "C", ["nope.zst", "a"], excl=True, files={"a": A}))
+    add(C("x-concat", "C", ["a", "b.zst"], excl=True, out="o:out", force=True, files={"a": A, "b.zst": ZB}))
+    # ---- --rm / --keep
+    add(C("k-rm-k", "C", ["a"], rmk=["r", "k"], files={"a": A}))
+    add(C("k-k-rm", "C", ["a"], rmk=["k", "r"], files={"a": A}))
+    add(C("k-rm-o", "C", ["a"], rmk=["k", "r"], out="o:x.zst", files={"a": A}))
+    add(C("k-rm-k-o-d", "D", ["a.zst"], rmk=["r", "k"], out="o:x", files={"a.zst": ZA}))
+    add(C("k-rm-o-two", "D", ["a.zst", "b.zst"], rmk=["r"], out="o:x", force=True, files={"a.zst": ZA, "b.zst": ZB}))
+    # ---- -D
+    add(C("m-c-mid-missing", "C", ["a", "nope", "b"], rm=True, files={"a": A, "b": B}))
+    add(C("m-c-mid-dir-O", "C", ["a", "dd", "b"], rm=True, out="O:out", files={"a": A, "b": B, "dd": DIR, "out": DIR}))
+    add(C("m-d-mid-exists", "D", ["a.zst", "b.zst", "c.zst"], rm=True, files={"a.zst": ZA, "b.zst": ZB, "c.zst": ZB, "b": OLD}))
+    add(C("D-c-rm", "C", ["a", "b"], rm=True, dictf="dict", files={"a": A, "b": B, "dict": dic}))
+    add(C("D-missing", "C", ["a"], rm=True, force=True, dictf="nodict", files={"a": A, "a.zst": OLD}))
+    add(C("D-missing-d", "D", ["a.zst"], rm=True, force=True, dictf="nodict", files={"a.zst": ZA, "a": OLD}))
+    add(C("D-is-dir", "C", ["a", "b"], rm=True, out="o:out", force=True, dictf="dd", files={"a": A, "b": B, "dd": DIR, "out": OLD}))
+    add(C("D-is-source", "C", ["dict", "a"], rm=True, dictf="dict", files={"a": A, "dict": dic}))
+    add(C("D-is-source-link", "C", ["l", "a"], rm=True, force=True, dictf="dict", files={"a": A, "dict": dic}, links={"l": "dict"}))
+    zd = g.zdict(A, dic)
+    add(C("D-d-rm", "D", ["a.zst"], rm=True, dictf="dict", files={"a.zst": zd, "dict": dic}))
+    add(C("D-d-wrong", "D", ["a.zst"], rm=True, dictf="dict", files={"a.zst": zd, "dict": text(rng, 3000)}))
+    add(C("D-dangling-link", "C", ["a"], rm=True, dictf="dl", files={"a": A}, links={"dl": "gone"}))
+    # ---- --patch-from
+    NEWV = A[:2000] + text(rng, 300) + A[2000:]
+    add(C("P-c", "C", ["new"], patch="old", out="o:patch", rm=True, files={"old": A, "new": NEWV}))
+    add(C("P-c-missing-ref", "C", ["new"], patch="nope", out="o:patch", force=True, rm=True, files={"new": NEWV, "patch": OLD}))
+    add(C("P-c-two", "C", ["new", "b"], patch="old", rm=True, files={"old": A, "new": NEWV, "b": B}))
+    add(C("P-and-D", "C", ["new"], patch="old", dictf="dict", rm=True, files={"old": A, "new": NEWV, "dict": dic}))
+    add(C("P-ref-is-source", "C", ["old"], patch="old", rm=True, files={"old": A}))
+    zp = g.zpatch(NEWV, A)
+    add(C("P-d", "D", ["patch.zst"], patch="old", out="o:new", rm=True, files={"old": A, "patch.zst": zp}))
+    add(C("P-d-wrong-ref", "D", ["patch.zst"], patch="old", out="o:new", rm=True, files={"old": B, "patch.zst": zp}))
+    # ---- symbolic links
+    add(C("l-src-ignored", "C", ["l"], rm=True, files={"a": A}, links={"l": "a"}))
+    add(C("l-src-ignored-among", "C", ["l", "b"], rm=True, files={"a": A, "b": B}, links={"l": "a"}))
+    add(C("l-src-force-rm", "C", ["l"], force=True, rm=True, files={"a": A}, links={"l": "a"}))
+    add(C("l-src-force-d-rm", "D", ["l.zst"], force=True, rm=True, files={"a.zst": ZA}, links={"l.zst": "a.zst"}))
+    add(C("l-src-dangling-force", "C", ["l", "b"], force=True, rm=True, files={"b": B}, links={"l": "gone"}))
+    add(C("l-dst-refused", "C", ["a"], rm=True, files={"a": A, "precious": OLD}, links={"a.zst": "precious"}))
+    add(C("l-dst-force", "C", ["a"], force=True, rm=True, files={"a": A, "precious": OLD}, links={"a.zst": "precious"}))
+    add(C("l-dst-d-refused", "D", ["a.zst"], rm=True, files={"a.zst": ZA, "precious": OLD}, links={"a": "precious"}))
+    add(C("l-dst-d-force", "D", ["a.zst"], force=True, rm=True, files={"a.zst": ZA, "precious": OLD}, links={"a": "precious"}))
+    add(C("l-dst-o-refused", "C", ["a"], out="o:lnk", rm=True, files={"a": A, "precious": OLD}, links={"lnk": "precious"}))
+    add(C("l-dst-concat-force", "C", ["a", "b"], out="o:lnk", force=True, files={"a": A, "b": B, "precious": OLD}, links={"lnk": "precious"}))
+    add(C("l-dst-dangling", "C", ["a"], rm=True, files={"a": A}, links={"a.zst": "elsewhere"}))
+    add(C("l-dst-dangling-d-corrupt", "D", ["a.zst"], rm=True, files={"a.zst": g.zfile("corrupt", 3000)}, links={"a": "elsewhere"}))
+    add(C("l-dst-to-dir", "C", ["a"], force=True, rm=True, files={"a": A, "dd": DIR}, links={"a.zst": "dd"}))
+    add(C("l-dst-is-src-via-link", "C", ["a"], out="o:lnk", force=True, rm=True, files={"a": A}, links={"lnk": "a"}))
+    add(C("l-src-is-dst-via-link", "D", ["l.zst"], out="o:a.zst", force=True, rm=True, files={"a.zst": ZA}, links={"l.zst": "a.zst"}))
+    add(C("l-prompt-yes", "C", ["a"], quiet=False, answer="y", files={"a": A, "precious": OLD}, links={"a.zst": "precious"}))
+    # ---- decompression of several frames / skippable frames / trailing garbage under every flag set
+    kinds = ["multi", "skip-only", "skip-first", "junk-short", "junk-long", "good-then-corrupt", "empty", "notzstd", "good-then-trunc"]
+    flagsets = [dict(), dict(force=True), dict(out="c"), dict(out="c", force=True), dict(rm=True), dict(force=True, rm=True),
+                dict(out="c", rm=True), dict(out="c", force=True, rm=True), dict(mode="T"), dict(mode="T", rm=True), dict(mode="T", force=True, rm=True)]
+    combos = [(k, fi) for k in kinds for fi in range(len(flagsets))]
+    if quick:
+        combos = rng.sample(combos, 30)
+    for k, fi in combos:
+        fl = dict(flagsets[fi])
+        mode = fl.pop("mode", "D")
+        add(C("fr-%s-%d" % (k, fi), mode, ["s.zst"], files={"s.zst": g.zfile(k, 2000)}, **fl), nk=3, ni=0)
     return cs
 
 
@@ -982,6 +1530,68 @@ def spec_bytes(spec):
     return bytes(out)
 
 
+def spec_layout(spec):
+    """[(kind 'z'|'x', length)] of a run spec with the *k repeats expanded symbolically"""
+    lay = []
+    for fr in spec.split("|"):
+        for ch in fr.split(","):
+            reps = 1
+            if "*" in ch:
+                ch, k = ch.split("*")
+                reps = int(k)
+            runs = [(r[0], int(r[1:])) for r in ch.split("+")]
+            if reps > 1 and len(runs) == 1:
+                lay.append((runs[0][0], runs[0][1] * reps))
+            else:
+                lay += runs * reps
+    return lay
+
+
+def check_sparse_big(ctx, t, thorough):
+    """zero runs beyond 4 GiB (the range of `unsigned storedSkips`): the real writer only, against the plain content
+    (the model side is the theorems sparse_equiv_over_4GiB / sparse_skips_bounded: the extracted model cannot
+    materialise 5 GB lists)"""
+    nviol = 0
+    out = os.path.join(ctx.scratch, "sparse.big")
+    specs = ["x8,z131072*40000,x8+z24+x3"]
+    if thorough:
+        specs += ["z1073741824*5,x3", "x8,z131072*32768,z8,x8", "z1048576*4096|x1+z1048576*4100,x9"]
+    env = dict(os.environ, C19_SPARSE_QUIET="1")
+    for spec in specs:
+        rc, so, se = core.sh([t.sparse, out, "1", "0", spec], timeout=600, env=env)
+        lay = spec_layout(spec)
+        total = sum(n for _k, n in lay)
+        ctx.count(("sparse-big", spec), nontrivial=True)
+        bad = None
+        if rc != 0:
+            bad = "sparse writer harness failed: " + se[-200:]
+        else:
+            size = os.path.getsize(out)
+            if size != total:
+                bad = "file size %d, plain content has %d bytes" % (size, total)
+            else:
+                with open(out, "rb") as f:
+                    off = 0
+                    for kind, n in lay:
+                        # the non-zero runs entirely; the zero runs at both ends and in the middle
+                        wins = [(off, n)] if (kind == "x" or n <= 65536) else [(off, 4096), (off + n // 2, 4096), (off + n - 4096, 4096)]
+                        for o, l in wins:
+                            f.seek(o)
+                            got = f.read(l)
+                            want = bytes(l) if kind == "z" else bytes(1 + (j % 255) for j in range(l))
+                            if got != want and bad is None:
+                                bad = "bytes at offset %d differ from the plain content" % o
+                        off += n
+        if bad:
+            ctx.violation(dict(kind="sparse-big", spec=spec, skips0="0"), what="sparse writer, zero run beyond 4 GiB: %s [spec %s]" % (bad, spec))
+            nviol += 1
+        try:
+            os.unlink(out)
+        except OSError:
+            pass
+    return nviol
+
+
 def check_sparse(ctx, t, m, rng):
     nviol = 0
     out = os.path.join(ctx.scratch, "sparse.out")
@@ -1029,6 +1639,127 @@ def check_sparse(ctx, t, m, rng):
             os.unlink(out)
         except OSError:
             pass
+    return nviol
+
+
+def check_sparse_setting(rn, g):
+    """which writer the CLI uses (prefs->sparseFileSupport after every FIO_openDstFile): lseek calls on the destination
+    <=> the model's setting is not 0; and the bytes are the content either way"""
+    ctx = rn.ctx
+    X = bytes(1 + (j % 250) for j in range(5000))
+    content = X + bytes(150000) + b"mid" + bytes(70000) + X[:7]
+    z = g.z(content)
+    OLD = b"old"
+    C = Case
+    scen = [  # (case, model arg, compress, [(name, to_stdout, was_regular)])
+        (C("ss-default-new", "D", ["s.zst"], files={"s.zst": z}), "d", 0, [("s", 0, 0)]),
+        (C("ss-default-over", "D", ["s.zst"], force=True, files={"s.zst": z, "s": OLD}), "d", 0, [("s", 0, 1)]),
+        (C("ss-sparse-new", "D", ["s.zst"], extra=["--sparse"], files={"s.zst": z}), "f", 0, [("s", 0, 0)]),
+        (C("ss-nosparse-over", "D", ["s.zst"], force=True, extra=["--no-sparse"], files={"s.zst": z, "s": OLD}), "n", 0, [("s", 0, 1)]),
+        (C("ss-sparse-stdout", "D", ["s.zst"], out="c", extra=["--sparse"], files={"s.zst": z}), "f", 0, [("<stdout>", 1, 0)]),
+        (C("ss-default-stdout", "D", ["s.zst"], out="c", files={"s.zst": z}), "d", 0, [("<stdout>", 1, 0)]),
+        (C("ss-sticky", "D", ["a.zst", "b.zst", "c.zst"], force=True, files={"a.zst": z, "b.zst": z, "c.zst": z, "a": OLD, "c": OLD}), "d", 0,
+         [("a", 0, 1), ("b", 0, 0), ("c", 0, 1)]),
+        (C("ss-compress-sparse", "C", ["s"], extra=["--sparse"], files={"s": content}), "f", 1, [("s.zst", 0, 0)]),
+        (C("ss-o-over", "D", ["s.zst"], out="o:out", force=True, files={"s.zst": z, "out": OLD}), "d", 0, [("out", 0, 1)]),
+    ]
+    nviol = 0
+    for case, arg, compress, dsts in scen:
+        ml = rn.m.ask("SM;%d;%s;%s" % (compress, arg, ",".join("%d%d" % (so, rg) for _n, so, rg in dsts)))
+        want = [int(x) for x in [l for l in ml if l.startswith("SET")][0].split()[1:]]
+        r = rn.execute(case)
+        real = read_dir(r["w"])
+        # lseek calls per destination, in the order the destinations were created
+        fd, seeks, order = {}, {}, []
+        for e in r["entries"]:
+            if "act" in e:
+                continue
+            name = SYS.get(e["nr"])
+            p = e["path"][2:] if e["path"].startswith("./") else e["path"]
+            if name == "openat" and e["a"][2] & O_CREAT and e["ret"] is not None and e["ret"] >= 0:
+                fd[e["ret"]] = p
+                order.append(p)
+                seeks[p] = 0
+            elif name == "close":
+                fd.pop(e["a"][0], None)
+            elif name == "lseek":
+                if e["a"][0] in fd:
+                    seeks[fd[e["a"][0]]] += 1
+                elif e["a"][0] == 1 and dsts[0][1]:
+                    seeks["<stdout>"] = seeks.get("<stdout>", 0) + 1
+        got = [1 if seeks.get(n, 0) else 0 for n, _so, _rg in dsts]
+        ctx.count(("sparse-setting", case.name, tuple(want)), nontrivial=True)
+        ctx.cov["traces_validated_against_impl"] += 1
+        bad = None
+        for n, so, _rg in dsts:
+            data = r["stdout"] if so else real.get(n)
+            exp = content if case.mode == "D" else None
+            if exp is not None and data != exp:
+                bad = "output %s differs from the content (%s bytes instead of %d)" % (n, None if data is None else len(data), len(exp))
+        if r["status"] != ("EXIT", 0):
+            bad = "status %s" % (r["status"],)
+        rn.cleanup(r)
+        if bad:
+            ctx.violation(dict(kind="cli-sparse", case=case.to_json(), argv=case.argv()), what="zstd %s: %s" % (" ".join(case.argv()), bad))
+            nviol += 1
+        elif got != [1 if v else 0 for v in want]:
+            ctx.violation(dict(kind="sparse-setting", case=case.to_json(), argv=case.argv(), seeks=got, model=want),
+                          what="zstd %s: destinations written with seeks %s, the model's sparseFileSupport after each open is %s" % (" ".join(case.argv()), got, want),
+                          no_input=True)
+            nviol += 1
+    return nviol
+
+
+def check_read_errors(rn, g, rng):
+    """read(2) errors on a source large enough for the asynchronous reader (>= 3 x 128 KiB): the fatal error is raised on
+    the reader thread.  Direct oracles only (thread timing: the call indices differ from run to run)."""
+    ctx = rn.ctx
+    A = text(rng, 500000) + bytes(rng.randrange(256) for _ in range(120000))
+    scen = [Case("rd-c-rm", "C", ["a"], rm=True, files={"a": A}),
+            Case("rd-d-rm", "D", ["a.zst"], rm=True, files={"a.zst": g.z(A, level=1)}),
+            Case("rd-d-o", "D", ["a.zst"], out="o:x", files={"a.zst": g.z(A, level=1)})]
+    nviol = 0
+    for case in scen:
+        src = case.srcs[0]
+        dst = case.out[2:] if case.out.startswith("o:") else (src + ".zst" if case.mode == "C" else src[:-4])
+        ref = rn.execute(case, wide=True)
+        full = read_dir(ref["w"]).get(dst)
+        ents = [e for e in ref["entries"] if "act" not in e]
+        first = next((e["idx"] for e in ents if (e["path"][2:] if e["path"].startswith("./") else e["path"]) == src), None)
+        rn.cleanup(ref)
+        if first is None or not isinstance(full, bytes):
+            continue
+        ks = [e["idx"] for e in ents if e["nr"] in (0, 17) and e["idx"] > first][:40]
+        for k in ks:
+            for E in (5,):
+                kr = rn.execute(case, k=k, action="fail:%d" % E, wide=True)
+                at = next((e for e in kr["entries"] if "act" not in e and e["idx"] == k), None)
+                if at is None or at["nr"] not in (0, 17) or not any(e.get("act") == "fail" for e in kr["entries"]):
+                    rn.cleanup(kr)
+                    continue
+                real = read_dir(kr["w"])
+                st = kr["status"]
+                code = st[1] if st and st[0] == "EXIT" else None
+                got = real.get(dst)
+                ctx.count(("read-error", case.name, code, None if got is None else (0 if len(got) == 0 else 1)), nontrivial=True)
+                bad, key = None, None
+                if real.get(src) != case.files[src] and got != full:
+                    bad = "the source %s is gone and %s is not the complete output" % (src, dst)
+                elif code == 0 and got != full:
+                    bad = "exit status 0 but %s is not the complete output" % dst
+                elif code is None:
+                    bad = "killed by a signal: %s" % (st,)
+                elif code != 0 and got is not None and got != full:
+                    bad = "exit status %d and a partial destination %s (%d bytes) is left behind" % (code, dst, len(got))
+                    if len(got) == 0:
+                        key = "C19-read-error-race-leaves-empty-destination"
+                rn.cleanup(kr)
+                if bad:
+                    if ctx.violation(dict(kind="read-error", case=case.to_json(), argv=case.argv(), k=k, errno=E, status=st, dir=show_dir(real)),
+                                     what="read(2) failing with errno %d at system call #%d of the wide grid: %s [%s: zstd %s]" % (E, k, bad, case.name, " ".join(case.argv())),
+                                     key=key):
+                        nviol += 1
+                        break
     return nviol
 
 
@@ -1087,7 +1818,7 @@ def run(ctx):
     import time
     t0 = time.time()
     if not ctx.replay_file:
-        for old in glob.glob(os.path.join(core.REPLAY, "C19-*.json")):      # replay files of earlier runs
+        for old in glob.glob(os.path.join(core.REPLAY, ctx.pid + "-*.json")):      # replay files of earlier runs
             os.unlink(old)
     tools = build_tools()
     core.log("C19 tools built %.1fs" % (time.time() - t0))
@@ -1108,11 +1839,15 @@ def run(ctx):
         g = Gen(rn, rng)
         quick = ctx.quick
         nviol = 0
-        nviol += check_sparse(ctx, tools, m, rng)
-        core.log("C19 sparse writer tie done %.1fs" % (time.time() - t0))
-        nviol += check_cli_sparse(rn, g, not quick)
-        core.log("C19 CLI sparse/no-sparse done %.1fs" % (time.time() - t0))
-        cases = corpus(g)
+        only = os.environ.get("C19_ONLY")
+        if not only:
+            nviol += check_sparse(ctx, tools, m, rng)
+            core.log("C19 sparse writer tie done %.1fs" % (time.time() - t0))
+            nviol += check_sparse_big(ctx, tools, not quick)
+            nviol += check_cli_sparse(rn, g, not quick)
+            nviol += check_sparse_setting(rn, g)
+            core.log("C19 CLI sparse/no-sparse done %.1fs" % (time.time() - t0))
+        cases = corpus(g) + corpus2(g, quick)
         nrand = 24 if quick else 400
         for i in range(nrand):
             cases.append(random_case(g, i, big=(not quick and i % 10 == 0)))
@@ -1123,22 +1858,28 @@ def run(ctx):
             cases.append(Case("c-long", "C", ["big"], rm=True, extra=["--long=20"], files={"big": A}))
             cases.append(Case("d-big-async-rm", "D", ["big.zst"], rm=True, files={"big.zst": g.z(A)}))
             dic = text(rng, 4000)
-            cases.append(Case("c-dict", "C", ["a"], rm=True, extra=["-D", "dict"], files={"a": text(rng, 3000), "dict": dic}))
+            cases.append(Case("c-dict", "C", ["a"], rm=True, dictf="dict", files={"a": text(rng, 3000), "dict": dic}))
         hist = {}
+        if only:
+            cases = [c for c in cases if any(c.name.startswith(x) for x in only.split(","))]
         for ci, case in enumerate(cases):
             corpus_case = not case.name.startswith("rnd")
             nk = None if not quick else (12 if corpus_case else 6)
             ni = (4 if corpus_case else 2) if quick else 40
             if case.name in ("c-rm", "d-rm", "d-corrupt-rm", "c-exists-force-rm"):
                 ni = 10 ** 6          # every SIGINT point of the basic --rm runs, in both tiers
+            if quick and hasattr(case, "nk"):
+                nk, ni = case.nk, case.ni
             hist[case.mode + ":" + case.out.split(":")[0]] = hist.get(case.mode + ":" + case.out.split(":")[0], 0) + 1
             try:
-                nviol += check_case(rn, case, nk, ni, rng)
+                nviol += check_case(rn, case, nk, ni, rng, nfault=getattr(case, "nfault", 0))
             except subprocess.TimeoutExpired:
                 ctx.violation(dict(kind="timeout", case=case.to_json()), what="zstd did not terminate under the supervisor: " + " ".join(case.argv()))
                 nviol += 1
-            if nviol >= 6:
+            if nviol >= 6 and not os.environ.get("C19_NOSTOP"):
                 break
+        if not quick and not only:
+            nviol += check_read_errors(rn, g, rng)
         core.log("C19 invocations done %.1fs (%d supervised runs)" % (time.time() - t0, rn.n_dirs))
         ctx.notes["supervised_runs"] = rn.n_dirs
         ctx.notes["invocations_by_mode_output"] = hist
